@@ -569,13 +569,32 @@ void uninitialized_fill_aux(It first, It last, P const& p, std::true_type)
     }
 }
 
+/// std::uninitialized_fill for iterators that dereference to a real reference
+template <typename It, typename P>
+BOOST_FORCEINLINE
+void uninitialized_fill_range(It first, It last, P const& p, std::true_type)
+{
+    std::uninitialized_fill(first,last,p);
+}
+
+/// Iterators that dereference to a proxy (bit-aligned pixels): std::uninitialized_fill would placement-construct
+/// a temporary proxy object instead of storing the value; such pixels are bit fields of raw bytes, assign through the proxy.
+template <typename It, typename P>
+BOOST_FORCEINLINE
+void uninitialized_fill_range(It first, It last, P const& p, std::false_type)
+{
+    for (; first != last; ++first)
+        *first = p;
+}
+
 /// std::uninitialized_fill for interleaved iterators
 /// If an exception is thrown destructs any in-place copy-constructed objects
 template <typename It, typename P>
 BOOST_FORCEINLINE
 void uninitialized_fill_aux(It first, It last, P const& p, std::false_type)
 {
-    std::uninitialized_fill(first,last,p);
+    uninitialized_fill_range(first, last, p,
+        typename std::is_lvalue_reference<typename std::iterator_traits<It>::reference>::type());
 }
 
 } // namespace detail
